@@ -59,7 +59,8 @@ use vls_protocol::model::{Basepoints, PubKey};
 use vls_protocol::msgs::{self, Message as WireMessage, SerBolt};
 use vls_protocol::psbt::PsbtWrapper;
 use vls_protocol::serde_bolt::{ArrayBE, Octets, WithSize};
-use vls_protocol_signer::handler::{ChannelHandler, Error as HandlerError, Handler};
+use vls_protocol_signer::approver::PositiveApprover;
+use vls_protocol_signer::handler::{ChannelHandler, Error as HandlerError, Handler, HandlerBuilder, RootHandler};
 use vls_protocol_signer::util::commitment_type_to_channel_type;
 
 const CP_SEED: [u8; 32] = [3u8; 32]; // commitment seed of make_test_counterparty_keys
@@ -461,6 +462,30 @@ impl Universe {
         Universe { scripts, xpub_str: format!("xpub:{}", xpub), allow: BTreeSet::new(), xpub_allowed: false }
     }
 
+    /// the scripts that do not depend on the node (other people's), and the foreign xpub as an allowlist entry
+    fn foreign(secp: &Secp256k1<All>) -> (Vec<Scr>, String) {
+        let mut v = vec![];
+        for (j, key) in [42u8, 43].iter().enumerate() {
+            let a = Address::p2wpkh(&make_test_bitcoin_pubkey(*key), NETWORK);
+            v.push(Scr { script: a.script_pubkey(), kind: Kind::Foreign(j), addr: Some(a.to_string()) });
+        }
+        let a = Address::p2wsh(&ScriptBuf::from(vec![0x51u8]), NETWORK);
+        v.push(Scr { script: a.script_pubkey(), kind: Kind::Foreign(2), addr: Some(a.to_string()) });
+        let xprv = Xpriv::new_master(NETWORK, &[0x51u8; 32]).expect("xprv");
+        (v, format!("xpub:{}", Xpub::from_priv(secp, &xprv)))
+    }
+
+    /// "on the allowlist" according to the operator's record: initial list, plus what was added, minus what was
+    /// removed, or exactly the last list that replaced it; restarts change nothing.  An allowlisted xpub covers the
+    /// scripts derived from it under the given (non-empty) path.
+    fn allowlisted(&self, script: &ScriptBuf, path: &[u32]) -> bool {
+        if self.allow.contains(script.as_bytes()) {
+            return true;
+        }
+        self.xpub_allowed
+            && self.scripts.iter().any(|s| s.script == *script && matches!(s.kind, Kind::Xpub(k) if path == [k]))
+    }
+
     fn by_kind(&self, f: impl Fn(&Kind) -> bool) -> Vec<&Scr> {
         self.scripts.iter().filter(|s| f(&s.kind)).collect()
     }
@@ -520,6 +545,33 @@ struct Sys {
     peer: [u8; 33],
     handler: ChannelHandler,
     setup_route: &'static str,
+    initial_allowlist: Vec<String>, // the daemon's configuration: the same on every start
+    prefer: Option<usize>,          // a script the next requests should pay the holder to
+}
+
+/// start (or restart) the signer the way the daemon does: HandlerBuilder on the persister with the configured initial
+/// allowlist, the HsmdInit handshake, then the root handler; a node found in the store is restored, else created
+fn start_daemon(pol: &Pol, flaky: &Arc<Flaky>, clock: &Arc<lightning_signer::util::clock::ManualClock>, seed: [u8; 32],
+                initial: &[String], proto: u32) -> RootHandler {
+    let mut init = HandlerBuilder::new(NETWORK, 0, services(pol, flaky, clock), seed)
+        .allowlist(initial.to_vec())
+        .approver(Arc::new(PositiveApprover()))
+        .max_protocol_version(proto)
+        .build()
+        .expect("HandlerBuilder::build");
+    let m = msgs::HsmdInit {
+        key_version: vls_protocol::model::Bip32KeyVersion { pubkey_version: 0, privkey_version: 0 },
+        chain_params: lightning_signer::bitcoin::BlockHash::from_byte_array([0u8; 32]),
+        encryption_key: None,
+        dev_privkey: None,
+        dev_bip32_seed: None,
+        dev_channel_secrets: None,
+        dev_channel_secrets_shaseed: None,
+        hsm_wire_min_version: 2,
+        hsm_wire_max_version: proto,
+    };
+    init.handle(WireMessage::HsmdInit(m)).expect("init");
+    init.into()
 }
 
 fn channel_handler(node: &Arc<Node>, proto: u32, peer: [u8; 33], dbid: u64) -> ChannelHandler {
@@ -539,25 +591,36 @@ fn cp_secret(n: u64) -> [u8; 32] {
 }
 
 impl Sys {
-    fn new(case: usize, pol: Pol, proto: u32) -> Sys {
+    fn new(case: usize, pol: Pol, proto: u32, initial: Vec<usize>, initial_xpub: bool) -> Sys {
         let mut seed = [0u8; 32];
         seed[0] = (case % 251) as u8;
         seed[1] = 0xc7;
         let world = World::new(real_policy(&pol), seed, KeyDerivationStyle::Native);
         let flaky = Arc::new(Flaky { inner: world.persister.clone(), fail_update_channel: AtomicBool::new(false) });
         let clock = world.clock.clone();
-        let config = world.config;
-        let node = Arc::new(Node::new(config, &seed, vec![], services(&pol, &flaky, &clock)));
-        let node_id = node.get_id();
-        node.add_allowlist(&vec![]).expect("initial allowlist");
-        flaky.new_node(&node_id, &config, &*node.get_state()).expect("new node");
-        flaky.new_tracker(&node_id, &node.get_tracker()).expect("new tracker");
         let secp = Secp256k1::new();
+        // the configured initial allowlist (addresses of other people's scripts, possibly an xpub)
+        let probe = Universe::foreign(&secp);
+        let mut initial_allowlist: Vec<String> = initial.iter().map(|j| probe.0[*j].addr.clone().unwrap()).collect();
+        if initial_xpub {
+            initial_allowlist.push(probe.1.clone());
+        }
+        let root = start_daemon(&pol, &flaky, &clock, seed, &initial_allowlist, proto);
+        let node = root.node().clone();
+        let config = NodeConfig::new(NETWORK);
+        let node_id = node.get_id();
         let peer = [2u8; 33];
         let (channel_id, _) = node.new_channel(1, &peer, &node).expect("new_channel");
-        let uni = Universe::new(&node, &secp);
-        let handler = channel_handler(&node, proto, peer, 1);
+        let mut uni = Universe::new(&node, &secp);
+        // the operator's allowlist starts as the configured one
+        for j in &initial {
+            uni.allow.insert(probe.0[*j].script.as_bytes().to_vec());
+        }
+        uni.xpub_allowed = initial_xpub;
+        let handler = root.for_new_client(1, PubKey(peer), 1);
         Sys {
+            initial_allowlist,
+            prefer: None,
             proto,
             peer,
             handler,
@@ -696,7 +759,15 @@ impl Sys {
     }
 
     /// a signer restart: a second Node built from the store alone
-    fn restart(&mut self) {
+    fn restart(&mut self, daemon_way: bool) {
+        if daemon_way {
+            // the same configuration on every start
+            let root = start_daemon(&self.pol, &self.flaky, &self.clock, self.seed, &self.initial_allowlist, self.proto);
+            self.node = root.node().clone();
+            assert_eq!(self.node.get_id(), self.node_id);
+            self.handler = root.for_new_client(1, PubKey(self.peer), 1);
+            return;
+        }
         let nodes = self.flaky.get_nodes().expect("get_nodes");
         for (id, entry) in nodes {
             if id == self.node_id {
@@ -851,6 +922,19 @@ impl Sys {
         }
         json!({"allowlist": if add { "add" } else { "remove" }, "address": a, "ok": r.is_ok()})
     }
+    /// set_allowlist: afterwards the allowlist is exactly this list
+    fn allow_set(&mut self, idxs: &[usize], xpub: bool) -> Value {
+        let mut list: Vec<String> = idxs.iter().map(|i| self.uni.scripts[*i].addr.clone().expect("addr")).collect();
+        if xpub {
+            list.push(self.uni.xpub_str.clone());
+        }
+        let r = self.node.set_allowlist(&list);
+        if r.is_ok() {
+            self.uni.allow = idxs.iter().map(|i| self.uni.scripts[*i].script.as_bytes().to_vec()).collect();
+            self.uni.xpub_allowed = xpub;
+        }
+        json!({"allowlist": "set", "list": list, "ok": r.is_ok()})
+    }
     fn allow_xpub(&mut self, add: bool) -> Value {
         let x = self.uni.xpub_str.clone();
         let r = if add { self.node.add_allowlist(&vec![x.clone()]) } else { self.node.remove_allowlist(&vec![x.clone()]) };
@@ -896,6 +980,11 @@ fn pick_holder_script(sys: &Sys, rng: &mut Rng, shutdown_path: &[u32]) -> (Scrip
         if rng.chance(3, 5) {
             let p = if rng.chance(4, 5) { shutdown_path.to_vec() } else { vec![] };
             return (up.clone(), p, "upfront");
+        }
+    }
+    if let Some(i) = sys.prefer {
+        if rng.chance(3, 5) {
+            return (sys.uni.scripts[i].script.clone(), if rng.chance(4, 5) { vec![] } else { vec![1] }, "taken-off-the-allowlist");
         }
     }
     let wallet = sys.uni.by_kind(|k| matches!(k, Kind::Wallet(_, _)));
@@ -1406,6 +1495,7 @@ fn exec(sys: &mut Sys, plan: &Plan, fail_store: bool, id: &str, wire: Option<(Ve
     let mut cs_tab: Vec<String> = vec![];
     let mut al_tab: Vec<String> = vec![];
     let mut oracle_json: Vec<Value> = vec![];
+    let mut allow_diverges: Vec<String> = vec![];
     for (p, s) in &pairs {
         let wallet: &dyn Wallet = &*node;
         let a = match catch_unwind(AssertUnwindSafe(|| wallet.can_spend(&dpath(p), s))) {
@@ -1413,7 +1503,12 @@ fn exec(sys: &mut Sys, plan: &Plan, fail_store: bool, id: &str, wire: Option<(Ve
             Ok(Ok(true)) => 1,
             _ => 2,
         };
-        let b = catch_unwind(AssertUnwindSafe(|| wallet.allowlist_contains(s, &dpath(p)))).unwrap_or(false);
+        // "allowlisted" is the operator's record, never the node's answer; the node's is kept for comparison
+        let b_node = catch_unwind(AssertUnwindSafe(|| wallet.allowlist_contains(s, &dpath(p)))).unwrap_or(false);
+        let b = sys.uni.allowlisted(s, p);
+        if b != b_node {
+            allow_diverges.push(format!("script {} path {:?}: operator's record says {}, the signer says {}", hex::encode(s.as_bytes()), p, b, b_node));
+        }
         cs_tab.push(format!("({}, {}, {})", coq_path(p), coq_script(s), a));
         al_tab.push(format!("({}, {}, {})", coq_script(s), coq_path(p), coq_bool(b)));
         oracle_json.push(json!({"path": p, "script": hex::encode(s.as_bytes()), "can_spend": (["false", "true", "error"][a]), "allowlisted": b}));
@@ -1648,6 +1743,9 @@ fn exec(sys: &mut Sys, plan: &Plan, fail_store: bool, id: &str, wire: Option<(Ve
         "signature_verified_against": signed_tx.as_ref().map(json_tx),
         "closed_after": {"memory": mem1.closed, "store": disk1.closed},
         "ledger_matches_state": ledger_ok,
+        "allowlist_diverges": allow_diverges,
+        "operator_allowlist": {"scripts": sys.uni.allow.iter().map(hex::encode).collect::<Vec<_>>(), "xpub": sys.uni.xpub_allowed,
+                               "configured_initial": sys.initial_allowlist},
         "monitor_violation": viol, "coq": coq,
     });
     Outcome { case, aborted, signed: sig.is_some() }
@@ -1691,15 +1789,23 @@ fn run(args: &Args) {
     for case in 0..args.n {
         let pol = pick_policy(&mut rng);
         let proto = *rng.pick(&[4u32, 5, 6]);
-        let mut sys = Sys::new(case, pol.clone(), proto);
+        // the daemon's configured initial allowlist: mostly not empty
+        let (initial, initial_xpub): (Vec<usize>, bool) = match rng.below(10) {
+            0 | 1 => (vec![], false),
+            2..=6 => (vec![0], false),
+            7 => (vec![0, 2], false),
+            8 => (vec![0], true),
+            _ => (vec![2], false),
+        };
+        let mut sys = Sys::new(case, pol.clone(), proto, initial.clone(), initial_xpub);
         // ---- allowlist before the channel exists (an upfront script may rely on it)
         let mut events: Vec<Value> = vec![];
         let foreign0 = sys.uni.scripts.iter().position(|s| s.kind == Kind::Foreign(0)).unwrap();
         let foreign2 = sys.uni.scripts.iter().position(|s| s.kind == Kind::Foreign(2)).unwrap();
-        if rng.chance(1, 2) {
+        if rng.chance(1, 3) {
             events.push(sys.allow_edit(true, foreign0));
         }
-        if rng.chance(1, 4) {
+        if rng.chance(1, 6) {
             events.push(sys.allow_xpub(true));
         }
         // ---- channel setup
@@ -1844,14 +1950,37 @@ fn run(args: &Args) {
             continue;
         }
         if rng.chance(1, 6) {
-            sys.restart();
-            events.push(json!("restart"));
+            let d = rng.chance(2, 3);
+            sys.restart(d);
+            events.push(json!(if d { "restart (HandlerBuilder)" } else { "restart (restore_node)" }));
         }
         // ---- close requests, the allowlist edited in between
         let k_req = if thorough { 10 + rng.below(10) } else { 8 + rng.below(6) } as usize;
-        let mut signed_once = false;
+        // in some channels an allowlisted destination is taken off the list at run time, the signer restarts with
+        // its unchanged configuration, and closes paying the holder there are asked for: they must be refused
+        let removal_at: Option<usize> = if !sys.uni.allow.is_empty() && rng.chance(2, 5) { Some(rng.below(k_req as u64 - 2) as usize) } else { None };
         for q in 0..k_req {
-            match rng.below(14) {
+            if removal_at == Some(q) && !sys.uni.allow.is_empty() {
+                let victim_bytes = sys.uni.allow.iter().next().cloned().unwrap();
+                let victim = sys.uni.scripts.iter().position(|x| x.script.as_bytes() == &victim_bytes[..] && x.addr.is_some()).unwrap();
+                if rng.chance(1, 2) {
+                    events.push(sys.allow_edit(false, victim));
+                } else {
+                    // replace the list by the other entries
+                    let rest: Vec<usize> = (0..sys.uni.scripts.len())
+                        .filter(|i| *i != victim && sys.uni.allow.contains(sys.uni.scripts[*i].script.as_bytes()) && sys.uni.scripts[*i].addr.is_some()
+                                && matches!(sys.uni.scripts[*i].kind, Kind::Foreign(_)))
+                        .collect();
+                    let x = sys.uni.xpub_allowed;
+                    events.push(sys.allow_set(&rest, x));
+                }
+                if rng.chance(4, 5) {
+                    sys.restart(true);
+                    events.push(json!("restart (HandlerBuilder)"));
+                }
+                sys.prefer = Some(victim);
+            }
+            match rng.below(18) {
                 0 => events.push(sys.allow_edit(true, foreign0)),
                 1 => events.push(sys.allow_edit(false, foreign0)),
                 2 => events.push(sys.allow_edit(true, foreign2)),
@@ -1859,10 +1988,17 @@ fn run(args: &Args) {
                     let on = sys.uni.xpub_allowed;
                     events.push(sys.allow_xpub(!on))
                 }
-                4 if signed_once => {
-                    sys.restart();
-                    events.push(json!("restart"));
+                4 | 5 => {
+                    let d = rng.chance(3, 4);
+                    sys.restart(d);
+                    events.push(json!(if d { "restart (HandlerBuilder)" } else { "restart (restore_node)" }));
                 }
+                6 => {
+                    let list: Vec<usize> = [foreign0, foreign2].iter().cloned().filter(|_| rng.chance(1, 2)).collect();
+                    let x = rng.chance(1, 4);
+                    events.push(sys.allow_set(&list, x));
+                }
+                7 => events.push(sys.allow_edit(false, foreign2)),
                 _ => {}
             }
             let last = q + 1 == k_req;
@@ -1881,7 +2017,7 @@ fn run(args: &Args) {
             if out.signed {
                 e.1 += 1;
                 n_signed += 1;
-                signed_once = true;
+
             }
             if c["monitor_violation"].as_array().map(|a| !a.is_empty()).unwrap_or(false) {
                 n_viol += 1;
